@@ -1019,7 +1019,7 @@ theorem fp_shape_whole_pa (puny : Str → Str) (trie : SNode Str) (s : Bool) (g 
     (po : Option Nat) (hpo : portVal g.port = some po)
     (hs : HostSafe (g.hostname.map (normHost puny fpOpts)))
     (hg : InClassOf true g (lower u)) (hnp : NotPlatform puny true (lower u)) (r : Split)
-    (h : fingerprintUrlStringSplitPA puny trie s u = .ok r) :
+    (h : fingerprintUrlStringSplitPA puny trie s u = .ok (.inr r)) :
     r.scheme = [] ∧ ∃ host : Option Str, r.netloc = unsplitNetloc none none host none := by
   rw [(fingerprint_pa_of_not_platform puny trie s u hnp).2] at h
   exact fp_shape_whole puny trie s g u po hpo hs hg r h
